@@ -23,6 +23,8 @@ CONSTANTS
   MaxCrashes = 0
   RestartRuns <- MCRestartNone
   FailSets <- MCFailPairs
+  Jumps <- MCJumpNone
+  MaxJumps = 0
   Mut = "none"
 INVARIANT NoViolation
 INVARIANT PrintDone
